@@ -94,6 +94,34 @@ pub fn structured_cases(rng: &mut ChaCha8Rng, count: usize) -> Vec<Value> {
     out
 }
 
+/// Graphs with astronomically many shortest paths: a chain of k diamonds has 2^k shortest paths end to end,
+/// a stack of layers of width 3 (each layer fully joined to the next) 3^(layers - 2), a square grid binomially many.
+pub fn bigcount_cases() -> Vec<Value> {
+    let mut out = vec![];
+    for directed in [false, true] {
+        let specs = SpecsJ { directed, multi: false, loops: false, dedupe: 2, missing: 0, loopfalse: 1 };
+        // 66 diamonds: a_i - {b_i, c_i} - a_(i+1)
+        let mut es: Vec<EdgeArg> = vec![];
+        for i in 0..66 {
+            let (a, b, c, a2) = (3 * i + 1, 3 * i + 2, 3 * i + 3, 3 * i + 4);
+            for (u, v) in [(a, b), (a, c), (b, a2), (c, a2)] { es.push((u, v, NAN_W, 0)); }
+        }
+        out.push(case_json(specs, &[Op::AddEdges(es)], "diamonds66"));
+        // 43 layers of width 3
+        let mut es: Vec<EdgeArg> = vec![];
+        for l in 0..42 {
+            for x in 0..3 { for y in 0..3 { es.push((3 * l + x + 1, 3 * (l + 1) + y + 1, NAN_W, 0)); } }
+        }
+        out.push(case_json(specs, &[Op::AddEdges(es)], "layers43x3"));
+    }
+    // 36 x 36 grid, undirected
+    let specs = SpecsJ { directed: false, multi: false, loops: false, dedupe: 2, missing: 0, loopfalse: 1 };
+    let mut es: Vec<EdgeArg> = vec![];
+    for r in 0..36 { for c in 0..36 { let id = r * 36 + c + 1; if c < 35 { es.push((id, id + 1, NAN_W, 0)); } if r < 35 { es.push((id, id + 36, NAN_W, 0)); } } }
+    out.push(case_json(specs, &[Op::AddEdges(es)], "grid36"));
+    out
+}
+
 /// Named graph shapes that shortcuts are typically written for (or forget): complete graphs, complete
 /// bipartite graphs, stars, wheels, paths, cycles, ladders, a clique with a pendant path, two cliques sharing
 /// a node, a shape plus isolated nodes, and the same with self-loops sprinkled in; directed versions with all
